@@ -10,7 +10,7 @@ try:
     if patch != "/dev/null" and subprocess.run(["patch", "-p1", "-s", "-i", patch], cwd=tmp).returncode != 0:
         print("patch does not apply"); sys.exit(3)
     for i in ids:
-        p = subprocess.run(["/verif/check", i, "quick"], capture_output=True, text=True, cwd="/verif",
+        p = subprocess.run([os.path.join(os.path.dirname(os.path.dirname(os.path.abspath(__file__))), "check"), i, "quick"], capture_output=True, text=True, cwd=os.path.dirname(os.path.dirname(os.path.abspath(__file__))),
                            env=dict(os.environ, PCV_REPO=tmp, PCV_EVIDENCE_DIR=os.path.join(tmp, ".ev")))
         res[i] = p.returncode
         lines = [l for l in p.stdout.splitlines() if l.startswith(("VIOLATION", "  what=", "  rule=", "ERROR", "KNOWN"))]
